@@ -331,7 +331,7 @@ HEAP_RULES = [
     Sub(r"\bdata\.", "data->", None),
     Call(r"\bdata->scheduler_base->get_stack_size", "scheduler_get_stack_size(data, {args})", None),
     Sub(r"\blk\.owns_lock\(\)", "OWNS(lk)", None),
-    Guard(r"(?:pika::)?(?:detail::)?unlock_guard\s*(?:<[^;()]*>)?\s*\w+\s*\(\s*(\w+)\s*\)\s*;", r"ulock_unlock(\1);", r"ulock_lock(\1);", None),
+    Guard(r"(?:pika::)?(?:detail::)?unlock_guard\s*(?:<[^;()]*>)?\s*\w+\s*\(\s*(\w+)\s*\)\s*;", r"heap_unlock_guard(self, \1);", r"ulock_lock(\1);", None),
     H_THIS,
 ]
 HEAP_LIFTS = {
